@@ -27,6 +27,7 @@ type C07Case struct {
 	Reads   []int      `json:"reads"`
 	BufSrc  int        `json:"buf_src"`
 	Single  bool       `json:"single,omitempty"` // gzip: Multistream(false): only the first member is read
+	Raw     []byte     `json:"raw,omitempty"`    // instead of Members+Mut: the input bytes themselves (native fuzz target)
 }
 
 func buildMembers(pkg string, ms []Member) (z []byte, bounds []int, payload []byte, err error) {
@@ -172,8 +173,11 @@ func checkC07(c C07Case) (labels []string, nontrivial bool, err error) {
 		return nil, false, err
 	}
 	z := applyContainerMut(good, c.Mut)
+	if c.Raw != nil {
+		good, z = c.Raw, c.Raw
+	}
 	var zdict []byte
-	if c.Pkg == "zlib" {
+	if c.Pkg == "zlib" && len(c.Members) > 0 {
 		zdict = recipeBytes(c.Members[0].Dict)
 	}
 	isTrunc := len(c.Mut) == 1 && c.Mut[0].Kind == "trunc"
